@@ -39,7 +39,7 @@ AMPLE = 0.49
 # endpoint to its class representative the transmapping tuple has fewer than two entries (a mapping of the final endpoint lands in
 # the slot of the initial one).  While the flag is True the generator does not draw (interstitial calculator, supercell) pairs in
 # exactly that region (su.nomap_region, computed from the crystal's point operations that survive in the supercell).
-EXCLUDE_INT_NOMAP = True
+EXCLUDE_INT_NOMAP = False
 
 
 @st.composite
@@ -416,7 +416,7 @@ def catalogue_cases(quick):
     from ..strategies import networks as nw
     out = []
     excluded[0] = 0
-    vac = ["FCC", "HCP", "B2", "omega"] if quick else ["FCC", "BCC", "HCP", "B2", "diamond", "omega", "tetP2", "SC", "mono2"]
+    vac = ["FCC", "HCP", "B2", "diamond"] if quick else ["FCC", "BCC", "HCP", "B2", "diamond", "omega", "tetP2", "SC", "mono2"]
     for kind, names in (("vacancy", vac), ("interstitial", ["HCPoct", "FCCoct", "NbO"] if quick else ["HCPoct", "FCCoct", "B2", "NbO", "tetP2"])):
         for name in names:
             rec = cs.CATALOGUE[name]
@@ -431,7 +431,7 @@ def catalogue_cases(quick):
                 excluded[0] += len(pool) - len(keep)
                 pool = keep
             step = 3
-            for n in range(0, len(pool), step):
+            for n in range(0, len(pool), step * (2 if quick else 1)):
                 out.append({"recipe": rec, "chem": 0, "kind": kind, "k": k, "supers": pool[n:n + step]})
     return out
 
@@ -442,7 +442,7 @@ def run(ctx):
     if EXCLUDE_INT_NOMAP and ctx.shard == 0:
         ctx.exclude("interstitial-nomap (catalogue supercells dropped)", excluded[0])
     ctx.cases([c for i, c in enumerate(base) if ctx.mine(i)], check, label="catalogue")
-    ctx.given(cases(), check, quick=120, thorough=3000)
+    ctx.given(cases(), check, quick=80, thorough=3000)
 
 
 def replay(case):
